@@ -100,6 +100,20 @@ def eff_beh(case):
     return dict(case['beh'], **case.get('_eff', {}))
 
 
+def view_beh(case, mode):
+    """behaviours as the model / the independent statement see them.  `unreadable`: the replay succeeds and the verdict is
+    reached, but the result (it carries a replayed value that pickles in the worker and cannot be unpickled by the parent)
+    cannot be read back from a dedicated worker: in-process an ordinary verdict, from a worker a framework failure - with the
+    worker alive, its replay counted"""
+    src = eff_beh(case) if mode == 'ded' else case['beh']
+    out = {}
+    for rid, b in src.items():
+        if b['k'] == 'unreadable':
+            b = dict(b, err='unreadable ' + rid)        # the text of the parent's unpickling error
+        out[rid] = b
+    return out
+
+
 def modes_of(case):
     return ['ded', 'inproc'] if case['mode'] == 'both' else [case['mode']]
 
@@ -151,7 +165,7 @@ def model_request(case, mode, handler):
     num = id_numbers(case)
     req = {'m': handler, 'mode': mode, 'keep': case['keep'], 'rate': case['rate'],
            'timeoutMs': int(round(case['timeout'] * 1000)),
-           'tasks': [[num[i], (eff_beh(case) if mode == 'ded' else case['beh'])[i]] for i in case['ids']]}
+           'tasks': [[num[i], view_beh(case, mode)[i]] for i in case['ids']]}
     consume = case.get('consume', ['all'])
     if consume[0] != 'all':
         req['k'] = consume[1]
@@ -172,7 +186,7 @@ def model_comparisons(case, answer):
 
 def spec_comparison(case, mode, rid):
     """Independent statement of 'the verdict and attached replay of that recording alone'."""
-    b = (eff_beh(case) if mode == 'ded' else case['beh'])[rid]
+    b = view_beh(case, mode)[rid]
     k, keep = b['k'], case['keep']
     kept = (['rec', rid], ['act', rid]) if keep else (None, None)
 
@@ -187,6 +201,8 @@ def spec_comparison(case, mode, rid):
         return {'id': rid, 'status': b['s'], 'message': None, 'playback': rid, 'expected': kept[0], 'actual': kept[1]}
     if k == 'playerRaises':
         return failure(b['m'], None)
+    if k == 'unreadable':
+        return failure(b['err'], None)
     if k == 'extractorRaises':
         # with kept results the parent's own re-extraction raises too: the outer handler reports it without a replay
         return failure(b['m'], None if keep else rid)
@@ -234,6 +250,8 @@ def mk_beh(kind, rid, rng=None, status=None):
         return {'k': 'bare', 's': status or 'Fixed'}
     if kind == 'late':
         return {'k': 'late', 's': status or 'Equal', 'm': 'late ' + rid}
+    if kind == 'unreadable':
+        return {'k': 'unreadable', 's': status or 'Equal', 'm': 'for ' + rid}
     if kind in ('playerRaises', 'extractorRaises', 'comparatorRaises'):
         return {'k': kind, 'm': '%s %s' % (kind[:-6], rid)}
     if kind == 'hangTermIgnored':      # a hang (the model's `hang`) of a player that ignores SIGTERM
@@ -303,7 +321,7 @@ class C08(Prop):
             ids = ['r%d' % i for i in range(n)]
             kinds = [spots.get(i, 'verdict') for i in range(n)]
             return ids, kinds
-        kinds7 = ['playerRaises', 'extractorRaises', 'comparatorRaises', 'bare', 'exit', 'hang', 'late']
+        kinds7 = ['playerRaises', 'extractorRaises', 'comparatorRaises', 'bare', 'exit', 'hang', 'late', 'unreadable']
         # every behaviour at first / middle / last position
         for k in kinds7:
             for where in ('first', 'middle', 'last'):
@@ -330,7 +348,7 @@ class C08(Prop):
         # random sequences
         n_ded, n_in = (0, 40) if tier == 'quick' else (270, 400)
         weights = ['verdict'] * 4 + ['bare', 'playerRaises', 'extractorRaises', 'comparatorRaises', 'exit', 'hang', 'late',
-                                     'hangTermIgnored']
+                                     'hangTermIgnored', 'unreadable']
         for _ in range(n_ded):
             n = rng.randint(3, 8)
             kinds = [rng.choice(weights) for _ in range(n)]
